@@ -1,0 +1,14 @@
+//go:build verif
+
+package index
+
+// VerifWaitOutOfOrder blocks until all asynchronous out-of-order
+// reindexing goroutines started so far have finished.
+func (x *Index) VerifWaitOutOfOrder() { x.reindexWg.Wait() }
+
+// VerifPending reports the sizes of the out-of-order bookkeeping maps.
+func (x *Index) VerifPending() (needs, neededBy, ready int) {
+	x.RLock()
+	defer x.RUnlock()
+	return len(x.needs), len(x.neededBy), len(x.readyReindex)
+}
